@@ -334,6 +334,13 @@ def toDecimal (div19 : List Nat → List Nat × Nat) (a : Big) : List Nat :=
     let ds := toDecimalLoop div19 (2 * a.mag.length + 1) a.mag
     ((if a.neg then ds ++ [45] else ds)).reverse
 
+/-- `v.divide(LP10, v, R)` through the modelled exits of `divide` (a value of at most one word never needs
+    another); `([], 0)` stands for "not modelled" -/
+def div19Word (v : List Nat) : List Nat × Nat :=
+  match divWord v 10000000000000000000 with
+  | some (q, r) => (q, r.headD 0)
+  | none => ([], 0)
+
 end BigInt
 end Model
 end JV
